@@ -154,7 +154,8 @@ func minimise(w World, p *Plan, v *Violation, budgetS float64) (*Plan, *Violatio
 	}
 	// shorten variadic argument lists and shrink byte strings
 	for i := 0; i < len(best.Ops); i++ {
-		for variadicOps[best.Ops[i].N] > 0 && len(best.Ops[i].A) > variadicOps[best.Ops[i].N]-1 {
+		// (hostile-world ops carry fixed leading arguments of their own: their lists are left alone)
+		for best.World != "hostile" && variadicOps[best.Ops[i].N] > 0 && len(best.Ops[i].A) > variadicOps[best.Ops[i].N]-1 {
 			c := best.Clone()
 			a := c.Ops[i].A
 			c.Ops[i].A = append([]int(nil), a[:len(a)-1]...)
